@@ -52,7 +52,7 @@ type c14In struct {
 	MF      int      `json:"mf,omitempty"`
 	FT      int      `json:"ft,omitempty"` // 0 = fail_timeout 0 (no counting), <0 = 1h, >0 = that many clock units
 	Unh     []bool   `json:"unh,omitempty"`
-	Policy  string   `json:"policy,omitempty"` // first | round_robin
+	Policy  string   `json:"policy,omitempty"` // first | round_robin (modelled) | random | least_conn (replayed from the observed choices, contract checked)
 	Threads int      `json:"threads,omitempty"`
 	Steps   []c14Adv `json:"steps,omitempty"`
 	N       int64    `json:"n,omitempty"`
@@ -505,8 +505,13 @@ func c14Sched(in *c14In, scale int) (Result, int) {
 		unhT[i] = cBool(b)
 	}
 	pol := uint64(0)
-	if in.Policy == "round_robin" {
+	switch in.Policy {
+	case "round_robin":
 		pol = 1
+	case "random":
+		pol = 2
+	case "least_conn":
+		pol = 3
 	}
 	term := cApp("CSched", cNat(in.Hosts), cZ(in.MC), cZ(int64(in.MF)), cZ(ftZ), cList(unhT), cN(pol),
 		cNat(in.Threads), snap0, cList(trace))
@@ -798,7 +803,7 @@ func c14Gen(r *Rand, tier string) []interface{} {
 		again bool
 	}
 	settings := []setting{{1, 1, -1, "first", false}, {1, 2, -1, "first", false}, {2, 1, -1, "round_robin", false},
-		{1, 1, 0, "first", false}, {2, 1, -1, "first", true}}
+		{1, 1, 0, "first", false}, {2, 1, -1, "first", true}, {2, 1, -1, "least_conn", false}}
 	inter := c14Interleavings(3, 3)
 	if tier == "thorough" {
 		inter = c14Interleavings(4, 4)
@@ -827,7 +832,7 @@ func c14Gen(r *Rand, tier string) []interface{} {
 	for i := 0; i < nRandom; i++ {
 		in := &c14In{Kind: "sched", Hosts: r.Range(1, 3), Threads: r.Range(1, 5),
 			MC: []int64{0, 1, 1, 2, 3}[r.Intn(5)], MF: []int{1, 1, 2, 3}[r.Intn(4)], FT: []int{0, -1, -1, -1}[r.Intn(4)],
-			Policy: r.Pick([]string{"first", "round_robin"})}
+			Policy: r.Pick([]string{"first", "round_robin", "least_conn", "random"})}
 		for h := 0; h < in.Hosts; h++ {
 			in.Unh = append(in.Unh, r.Chance(10))
 		}
